@@ -131,29 +131,71 @@ func refExclude(patterns []string) map[string]int {
 	return fate
 }
 
-// malformedEvaluated: does the pattern set hold a glob that path.Match rejects and that the
-// exclusion has to evaluate (a table glob always is; a child glob only for a matching table)?
+// malformedEvaluated: does the pattern list hold a glob that path.Match rejects and that the
+// exclusion has to evaluate? Patterns are applied one after the other: a table glob is evaluated
+// while any table is left, a child glob only against the children - of the kinds its selector names -
+// that the earlier patterns have left in a table its table glob matches.
 func malformedEvaluated(patterns []string) bool {
+	alive := make([]bool, len(elems))
+	for i := range alive {
+		alive[i] = true
+	}
+	bad := func(g string) bool { _, err := path.Match(g, "x"); return err != nil }
 	for _, p := range patterns {
 		parts := strings.Split(p, ".")
 		tglob, tk := sel(parts[0])
-		if _, err := path.Match(tglob, "x"); err != nil {
-			return true
+		anyTable := false
+		for i, e := range elems {
+			anyTable = anyTable || alive[i] && e.kind == "table"
+		}
+		if bad(tglob) {
+			if anyTable {
+				return true
+			}
+			continue
 		}
 		if len(parts) == 1 {
+			if selected(tk, "table") {
+				for i, e := range elems {
+					if alive[i] && match(tglob, e.table) {
+						alive[i] = false
+					}
+				}
+			}
 			continue
 		}
 		cglob, ck := sel(parts[1])
-		if _, err := path.Match(cglob, "x"); err == nil {
-			continue
-		}
-		// (a selector naming no kind a table's child can have leaves the glob unevaluated.)
-		if !selected(ck, "column") && !selected(ck, "index") && !selected(ck, "fk") && !selected(ck, "check") {
-			continue
-		}
-		for _, e := range elems {
-			if e.kind == "table" && selected(tk, "table") && match(tglob, e.name) {
-				return true
+		for ti, te := range elems {
+			if te.kind != "table" || !alive[ti] || !selected(tk, "table") || !match(tglob, te.name) {
+				continue
+			}
+			gone := map[string]bool{} // columns of this table the pattern removes
+			for _, kind := range []string{"column", "index", "fk", "check"} {
+				if !selected(ck, kind) {
+					continue
+				}
+				for i, e := range elems {
+					if !alive[i] || e.table != te.table || e.kind != kind {
+						continue
+					}
+					over := false
+					for _, c := range e.cols {
+						over = over || gone[c]
+					}
+					if over {
+						alive[i] = false // removed with its column, before the glob is looked at
+						continue
+					}
+					if bad(cglob) {
+						return true
+					}
+					if match(cglob, e.name) {
+						alive[i] = false
+						if kind == "column" {
+							gone[e.name] = true
+						}
+					}
+				}
 			}
 		}
 	}
